@@ -51,6 +51,28 @@ extern jmp_buf __tv_jmp;
 #  error "harness.h: no mode selected"
 #endif
 
+/* products/quotients of reference models: under cbmc they share the memoised circuit with the translated code */
+#if defined(__CPROVER__)
+u32 __verif_mul32(u32 a, u32 b); u64 __verif_mul64(u64 a, u64 b);
+u32 __verif_udiv32(u32 a, u32 b); u32 __verif_urem32(u32 a, u32 b); u64 __verif_udiv64(u64 a, u64 b); u64 __verif_urem64(u64 a, u64 b);
+extern int __verif_memo_miss;
+#  define REF_MUL32(a, b) __verif_mul32(a, b)
+#  define REF_MUL64(a, b) __verif_mul64(a, b)
+#  define REF_UDIV32(a, b) __verif_udiv32(a, b)
+#  define REF_UREM32(a, b) __verif_urem32(a, b)
+#  define REF_UDIV64(a, b) __verif_udiv64(a, b)
+#  define REF_UREM64(a, b) __verif_urem64(a, b)
+#  define MEMO_MISSES() __verif_memo_miss
+#else
+#  define REF_MUL32(a, b) ((u32)((u32)(a) * (u32)(b)))
+#  define REF_MUL64(a, b) ((u64)((u64)(a) * (u64)(b)))
+#  define REF_UDIV32(a, b) ((u32)((u32)(a) / (u32)(b)))
+#  define REF_UREM32(a, b) ((u32)((u32)(a) % (u32)(b)))
+#  define REF_UDIV64(a, b) ((u64)((u64)(a) / (u64)(b)))
+#  define REF_UREM64(a, b) ((u64)((u64)(a) % (u64)(b)))
+#  define MEMO_MISSES() 0
+#endif
+
 /* exception / termination state of the translated code (in the real build the wrappers catch
  * C++ exceptions themselves and report them through return codes) */
 #endif
